@@ -1,7 +1,16 @@
 //go:build verif
 
 // Contracts for the verification machinery in /verif (comment-only; no declarations).
-// C04: a stream whose protocol negotiation fails is reset. C07: negotiated protocol / handler dispatch.
+//
+// C04: a stream whose protocol negotiation fails is reset.
+// C07: stream protocol negotiation. ghost.proto(s) = the protocol ID recorded on stream s (set by a SetProtocol that
+// returned nil, specs/libp2p.spec). Dialer side (NewStream): the stream handed out was opened to the requested peer, is
+// bound to one of the requested protocol IDs, was not reset, and - when the protocol was chosen optimistically from the
+// peerstore - is wrapped so that all I/O goes through a lazy multistream conn built on that very stream and proposing
+// that very protocol. Listener side (newStreamHandler): the handler that runs is the one the switch's Negotiate
+// returned, it gets the negotiated ID and the same stream, after SetProtocol(negotiated ID) succeeded on it; on any
+// failure the stream is reset and no handler runs. Set/Remove handler forward exactly (mux, pid, match) to the switch
+// and the registered wrapper runs the user's handler exactly once on the stream it was given.
 
 package basichost
 
@@ -10,4 +19,95 @@ package basichost
 //@ ensures strErr != nil && called(NewStream, 0) && ret(NewStream, 0, 1) == nil && ret(NewStream, 0, 0) != nil ==>
 //@         called(ResetWithError, 0) && arg(ResetWithError, 0, 0) == ret(NewStream, 0, 0)
 //@ ensures strErr != nil ==> str == nil
+//@ callsite NewStream#0 requires arg0 == h.network && arg2 == p
+//@ callsite Connect#0 requires arg2.ID == p && len(arg2.Addrs) == 0
+//@ callsite IdentifyWait#0 requires arg0 == h.ids && arg1 == s.Conn() && ret(NewStream, 0, 1) == nil
+//@ callsite preferredProtocol#0 requires arg1 == p && arg2 == pids && called(IdentifyWait, 0)
+//@ callsite SetProtocol#0 requires arg0 == s && arg1 == pref && pref != ""
+//@ callsite NewMSSelect#0 requires arg0 == s && arg1 == pref && ret(SetProtocol, 0, 0) == nil && ghost.proto(s) == pref
+//@ callsite SetProtocol#1 requires arg0 == s && arg1 == selected && err == nil && pref == "" && !called(SetProtocol, 0)
+//@ callsite AddProtocols#0 requires arg1 == p && len(arg2) == 1 && arg2[0] == selected && ghost.proto(s) == selected
+//@ callsite AddProtocols#0 requires exists i int :: 0 <= i && i < len(pids) && arg2[0] == pids[i]
+//@ ensures strErr == nil ==> called(NewStream, 0) && ret(NewStream, 0, 1) == nil && s == ret(NewStream, 0, 0)
+//@ ensures strErr == nil ==> !called(ResetWithError, 0) && !called(ResetWithError, 1) && !called(ResetWithError, 2)
+//@ chaninv errCh(v error) = v == nil ==> exists i int :: 0 <= i && i < len(pids) && selected == pids[i]
+//@ ensures strErr == nil ==> exists i int :: 0 <= i && i < len(pids) && ghost.proto(s) == pids[i]
+//@ ensures strErr == nil && !called(NewMSSelect, 0) ==> ghost.proto(s) == selected && recvd(errCh) == 1 && recvval(errCh) == nil
+//@ ensures strErr == nil && called(NewMSSelect, 0) ==> typeis(str, *streamWrapper)
+//@ ensures strErr == nil && called(NewMSSelect, 0) ==> fresh(str)
+//@ ensures strErr == nil && called(NewMSSelect, 0) ==> (forall w *streamWrapper :: w == str ==> w.Stream == s && w.rw == ret(NewMSSelect, 0, 0))
+//@ ensures strErr == nil && called(NewMSSelect, 0) ==> ghost.under(ret(NewMSSelect, 0, 0)) == s &&
+//@         ghost.msproto(ret(NewMSSelect, 0, 0)) == ghost.proto(s)
+//@ ensures strErr == nil && !called(NewMSSelect, 0) ==> str == s && ncalls(SetProtocol, 1) == 1 && ret(SetProtocol, 1, 0) == nil
 //@ noframe
+//@ closure 1
+//@ ensures ncalls(SelectOneOf, 0) == 1 && arg(SelectOneOf, 0, 0) == pids && arg(SelectOneOf, 0, 1) == s
+//@ ensures selected == ret(SelectOneOf, 0, 0) && err == ret(SelectOneOf, 0, 1) && sent(errCh) == 1
+//@ ensures err == nil ==> exists i int :: 0 <= i && i < len(pids) && selected == pids[i]
+//@ noframe
+
+//@ func (h *BasicHost) preferredProtocol
+//@ prop C07
+//@ callsite SupportsProtocols#0 requires arg1 == p && arg2 == pids
+//@ ensures result1 == nil ==> result0 == "" || (exists i int :: 0 <= i && i < len(pids) && result0 == pids[i])
+//@ ensures result1 != nil ==> result0 == ""
+//@ modifies nothing
+
+//@ func (h *BasicHost) newStreamHandler
+//@ prop C07
+//@ callsite Negotiate#0 requires arg0 == h.mux && arg1 == s
+//@ callsite SetProtocol#0 requires arg0 == s && arg1 == ret(Negotiate, 0, 0) && ret(Negotiate, 0, 2) == nil
+//@ callsite handle#0 requires ncalls(Negotiate, 0) == 1 && ret(Negotiate, 0, 2) == nil && handle == ret(Negotiate, 0, 1)
+//@ callsite handle#0 requires arg0 == ret(Negotiate, 0, 0) && arg1 == s
+//@ callsite handle#0 requires ncalls(SetProtocol, 0) == 1 && ret(SetProtocol, 0, 0) == nil && ghost.proto(s) == arg0
+//@ callsite handle#0 requires !called(Reset, 0) && !called(Reset, 1) && !called(ResetWithError, 0) && !called(ResetWithError, 1)
+//@ ensures ncalls(handle, 0) <= 1 && ncalls(Negotiate, 0) <= 1
+//@ ensures !called(handle, 0) ==> (called(Reset, 0) && arg(Reset, 0, 0) == s) || (called(Reset, 1) && arg(Reset, 1, 0) == s) ||
+//@         (called(ResetWithError, 0) && arg(ResetWithError, 0, 0) == s) || (called(ResetWithError, 1) && arg(ResetWithError, 1, 0) == s)
+//@ ensures called(Negotiate, 0) && ret(Negotiate, 0, 2) != nil ==> !called(handle, 0) && !called(SetProtocol, 0) &&
+//@         called(ResetWithError, 0) && arg(ResetWithError, 0, 0) == s && arg(ResetWithError, 0, 1) == network.StreamProtocolNegotiationFailed
+//@ ensures called(SetProtocol, 0) && ret(SetProtocol, 0, 0) != nil ==> !called(handle, 0) &&
+//@         called(ResetWithError, 1) && arg(ResetWithError, 1, 0) == s && arg(ResetWithError, 1, 1) == network.StreamResourceLimitExceeded
+//@ ensures called(handle, 0) ==> !called(Reset, 0) && !called(Reset, 1) && !called(ResetWithError, 0) && !called(ResetWithError, 1)
+//@ noframe
+
+//@ func (h *BasicHost) SetStreamHandler
+//@ prop C07
+//@ callsite AddHandler#0 requires arg0 == h.mux && arg1 == pid
+//@ ensures ncalls(AddHandler, 0) == 1
+//@ noframe
+//@ closure 0
+//@ ensures ncalls(handler, 0) == 1 && arg(handler, 0, 0) == rwc
+//@ ensures result == nil
+//@ noframe
+
+//@ func (h *BasicHost) SetStreamHandlerMatch
+//@ prop C07
+//@ callsite AddHandlerWithFunc#0 requires arg0 == h.mux && arg1 == pid && arg2 == m
+//@ ensures ncalls(AddHandlerWithFunc, 0) == 1
+//@ noframe
+//@ closure 0
+//@ ensures ncalls(handler, 0) == 1 && arg(handler, 0, 0) == rwc
+//@ ensures result == nil
+//@ noframe
+
+//@ func (h *BasicHost) RemoveStreamHandler
+//@ prop C07
+//@ callsite RemoveHandler#0 requires arg0 == h.mux && arg1 == pid
+//@ ensures ncalls(RemoveHandler, 0) == 1
+//@ noframe
+
+//@ func (s *streamWrapper) Close
+//@ prop C07
+//@ callsite SetReadDeadline#0 requires arg0 == s.Stream
+//@ callsite Close#0 requires arg0 == s.rw && called(SetReadDeadline, 0)
+//@ ensures ncalls(Close, 0) == 1 && result == ret(Close, 0, 0)
+//@ modifies nothing
+
+//@ func (s *streamWrapper) CloseWrite
+//@ prop C07
+//@ callsite Flush#0 requires arg0 == s.rw && !called(CloseWrite, 0)
+//@ callsite CloseWrite#0 requires arg0 == s.Stream
+//@ ensures ncalls(CloseWrite, 0) == 1 && result == ret(CloseWrite, 0, 0)
+//@ ensures ncalls(Flush, 0) <= 1
+//@ modifies nothing
